@@ -43,8 +43,40 @@ class SimLoop:
             self.ctx.paths += len(self._paths)
         return self._paths
 
-    def prelude_assign(self, name):
-        """The expression a local is initialised with before the loop (last assignment), or None."""
+    def prelude_aliases(self):
+        """locals that merely name, once and at the top level of the set-up code, what a getter of the interface / volume / queue
+        object returns (`initial_time = sim.get_initial_time()`, `initial_state = sim.get_initial_state()`): reading such a name is
+        reading the getter"""
+        if getattr(self, '_aliases', None) is None:
+            single = util.single_defs(self.f)
+            out = {}
+            for s in self.pre:
+                if isinstance(s, ast.AnnAssign) and isinstance(s.target, ast.Name) and s.value is not None:
+                    nm, val = s.target.id, s.value
+                elif isinstance(s, ast.Assign) and len(s.targets) == 1 and isinstance(s.targets[0], ast.Name):
+                    nm, val = s.targets[0].id, s.value
+                else:
+                    continue
+                v = util.strip_cast(val)
+                if single.get(nm) is val and isinstance(v, ast.Call) and isinstance(v.func, ast.Attribute) and isinstance(v.func.value, ast.Name) \
+                        and (v.func.attr.startswith('get_') or v.func.attr.startswith('py_get_')) and not v.args and not v.keywords:
+                    out[nm] = val
+            self._aliases = out
+        return self._aliases
+
+    def prelude_assign(self, name, resolve=False):
+        """The expression a local is initialised with before the loop (last assignment), or None; with resolve=True getter aliases are read through."""
+        val = self._prelude_assign(name)
+        if val is None or not resolve or name in self.prelude_aliases():
+            return val
+        al = self.prelude_aliases()
+        if any(isinstance(n, ast.Name) and n.id in al for n in ast.walk(val)):
+            new = util.inline(val, al)
+            ast.copy_location(new, val)
+            return new
+        return val
+
+    def _prelude_assign(self, name):
         val = None
         for s in self.pre:
             if isinstance(s, ast.AnnAssign) and isinstance(s.target, ast.Name) and s.target.id == name and s.value is not None:
